@@ -1,7 +1,7 @@
 """C19 — PSD and signal utilities conserve what they claim to conserve (DESIGN.md section 6/C19).
 
-Tie: correspondence between the Lean models (lean/PyYetiVerif/Model/{Fixtime,Psd,Resample}.lean, run
-through Drivers/C19.lean) and the code in /repo's working tree:
+Tie: correspondence between the Lean models (lean/PyYetiVerif/Model/{Fixtime,FixtimeTnew,FixtimeDrops,Psd,PsdOct,
+Resample}.lean, run through Drivers/C19.lean) and the code in /repo's working tree:
 
   exact (model at Rat, dyadic inputs)
     * np.searchsorted (both sides)                          vs ssLeft / ssRight
@@ -9,11 +9,21 @@ through Drivers/C19.lean) and the code in /repo's working tree:
     * the numba variants of the two routines (source text only: numba is absent; the `else:` branch of
       `if not HAVE_NUMBA:` is extracted with `ast`, the decorators are dropped and the text is exec'd
       as plain Python — a transcription, flagged as such)   vs closestSeq / prevSeq
-    * dsp.fixtime end to end: returned samples              vs y_clean[closest|prevIdx(told_clean, tnew)]
+    * dsp.fixtime's cleaning bookkeeping: fixinfo.alldrops.{dropouts, outtimes, alldrops} (positions in the record
+      as given, after the optional sort)                    vs fixtimeDrops (_del_drops/_del_outtimes/_get_alldrops)
+    * dsp._mk_initial_tnew called directly, and fixtime's returned time vector end to end
+                                                            vs mkInitialTnew on the MODEL's cleaned times (exact when
+                                                               the alignment shift is dyadic, else 1e-9*dt: np.mean)
+    * dsp.fixtime end to end: returned samples              vs y_clean[closest|prevIdx(told_clean, tnew)], told_clean
+                                                               from the model's bookkeeping, not from fixinfo
     * len(dsp.resample(...)), len(tnew)                     vs resampleLen
+    * rescale._get_fl_fu and rescale's input-edge block (SOURCE TEXT of the nested function / of the statement pair,
+      extracted with `ast` and exec'd: `translate`)         vs getFlFu / inEdges at Rat on exactly linear dyadic scales
   numeric (model at Float with the same expression order, or at Rat; |impl - model| <= 1e-9*scale)
-    * psd.area, psd.interp (log and linear), psd.rescale (freq= and n_oct= paths, linear / log /
-      linear-within-tolerance scales, extendends on/off), dsp.resample FIR taps and output.
+    * psd.area, psd.interp (log and linear), psd.rescale (freq= and n_oct= paths, linear / log / linear-within-tolerance
+      / nearly-linear scales on both sides of the 1e-12 test, extendends on/off), the band edges of every such scale
+      (bit-equal in the linear branch), psd.get_freq_oct (exact / approximate, three trims, anchors),
+      dsp.resample FIR taps and output incl. constants and integer / float32 / list storage of the data.
 
 The model-free oracle (`search`) restates the property on the public API only.
 """
@@ -45,57 +55,88 @@ THEOREMS = ["PyYetiVerif.C19." + n for n in (
     "interpolant_is_piecewise_power_law area_is_integral_of_interpolant upsample_keeps_samples_full "
     "constants_reproduced resample_kept_sample_times tnew_round_half_even tnew_uniform "
     "edges_partition_linear edges_partition_linear_tolerance edges_partition_log edges_dispatch "
-    "edges_extendends_rule freq_oct_bands freq_oct_ratio "
+    "edges_extendends_rule freq_oct_bands freq_oct_ratio alldrops_indices_are_full_record_positions "
 ).split()]
 TRUSTED = [
     "correspondence harness harness/props/c19.py (exact comparison on dyadic times; numeric 1e-9*scale elsewhere)",
     "np.searchsorted on a sorted array = number of leading elements < v (left) / <= v (right): re-measured every run",
-    "np.interp, scipy interp1d(kind='linear'), scipy.signal.lfilter (FIR), np.cumsum, np.mean: modelled by their "
-    "documented formulas, re-measured numerically every run",
-    "scipy.signal.windows.kaiser: an input of the resample model (no Bessel function in Lean); only w[M/2] = 1 is used by a theorem",
+    "np.interp, scipy interp1d(kind='linear'), scipy.signal.lfilter (FIR), np.cumsum, np.mean, np.std, np.argsort, np.argmax, "
+    "np.arange, np.nonzero, Python round(): modelled by their documented formulas, re-measured every run",
+    "scipy.signal.windows.kaiser: an input of the resample model (no Bessel function in Lean); only w[M/2] = 1 is used by a "
+    "theorem (hypothesis of upsample_keeps_samples_full), re-measured through the numeric resample stream",
     "numba variants of _find_closest_times/_find_closest_previous_times: source text exec'd as plain Python "
     "(numba not installed), assumed to have Python loop semantics under numba",
-    "IEEE rounding of the log/exp/sqrt/sin kernels; float results are compared numerically, never proved",
+    "rescale._get_fl_fu and rescale's input-edge block: the source text of the nested function / statement pair exec'd as "
+    "plain Python (they cannot be called from outside rescale); rescale as a whole is compared numerically as well",
+    "which samples are drop-outs (nan / inf / within 1 % of dropval) is an input of the bookkeeping model, computed by the harness",
+    "IEEE rounding of the log/exp/sqrt/sin/pow/log2 kernels; float results are compared numerically, never proved",
 ]
 RULE = (
     "a case is one call of a routine compared with the model: (told, tnew) pairs on dyadic grids with ties, "
-    "duplicates, gaps and out-of-range new times; fixtime inputs with jitter/gaps/shifts/drop-outs/unsorted samples x "
-    "hold_previous_value x previous_value_tol; (n, p, q, pts, axis) for resample; specifications with 2-7 break points "
-    "and slopes including exactly -1, the 1e-8 tolerance band and the former 1e-5 band; (P, F, freq|n_oct, extendends) for rescale over "
-    "linear/log/tolerance-linear scales. non-trivial = the case reaches a non-default branch (a tie, an out-of-range "
-    "time, a clipped end band, the s=-1 branch, p>1 and q>1, ...); distinct by the canonical input"
+    "duplicates, gaps and out-of-range new times; fixtime inputs with jitter/gaps/shifts/drop-outs (nan, inf, dropval)/stray "
+    "time stamps beyond 3 sigma/unsorted samples, alone and COMBINED in one record in random order x hold_previous_value x "
+    "previous_value_tol x deldrops x delouttimes; sorted dyadic time vectors for _mk_initial_tnew (aligned, too many turning "
+    "points, length mismatch, half-step span); (n, p, q, pts, axis, storage dtype) for resample; specifications with 2-7 break "
+    "points and slopes including exactly -1, the 1e-8 tolerance band and the former 1e-5 band; (P, F, freq|n_oct, extendends) "
+    "for rescale over linear/log/tolerance-linear/nearly-linear scales (one step off by 1e-13 ... 1e-3 relative); centre "
+    "scales for the band edges; (n, frange, exact, trim, anchor) for get_freq_oct. non-trivial = the case reaches a "
+    "non-default branch (a tie, an out-of-range time, a clipped end band, the s=-1 branch, p>1 and q>1, a shifted or "
+    "unaligned time base, ...); distinct by the canonical input"
 )
 ASSUMPTIONS = [
     "float arithmetic on the generated dyadic times is exact (differences and comparisons of multiples of 2^-8 below 2^12)",
-    "psd inputs are positive, frequencies strictly increasing (the documented domain of area/interp/rescale)",
+    "psd inputs are positive, frequencies strictly increasing (the documented domain of area/interp/rescale); a scale that is "
+    "not linear is read as logarithmic and must be positive",
+    "fixtime is modelled for a numeric sr, delspikes=False, base=None, negmethod='sort' with distinct times; records whose "
+    "time lies within 1e-8 (relative, squared) of the 3-sigma outlier threshold are skipped and counted",
+    "get_freq_oct inputs whose trimming decision lies within 1e-9 of a band centre/edge are skipped and counted",
 ]
 PARTIAL = (
     "partial (accuracy): Lanczos interpolation accuracy vs pts and anti-aliasing are measured by the oracle, not proved; "
-    "upsample_keeps_samples is proved at the level of the FIR taps (`upsample_taps`: taps vanish at non-zero multiples "
-    "of p, centre tap = window centre) - the convolution step is tied numerically only; constants_reproduced is checked by "
-    "the oracle only; area_is_integral (integral of the whole log-log interpolant = area) is proved per segment "
-    "(`area_segment`) plus list additivity (`area_additive`), the gluing over the interpolant is not formalised; "
-    "fixtime's time-base construction (_mk_initial_tnew, despiking, sample-rate heuristics) is outside the model: the "
-    "index rule is tied end to end on fixtime's own tnew; rescale's log-scale edges (sqrt) are tied numerically, the "
-    "theorems take the band edges as given; area's remaining |s+1| < 1e-8 branch is proved to be within the relative "
-    "amount |s+1|*ln(f2/f1) of the integral, not equal to it (`area_segment_tolerance_band_inexact`)"
+    "upsample_keeps_samples_full and constants_reproduced are proved for the whole modelled pipeline over the reals - the "
+    "Kaiser window is an input (hypothesis: centre value 1) and float round-off (e.g. mean of a constant not exactly the "
+    "constant) is measured only; storage types (integer, float32, lists) are covered by correspondence/oracle only, the "
+    "model works on numbers; fixtime: the time base is modelled for numeric sr / delspikes=False / base=None "
+    "(tnew_uniform: exact arithmetic progression, length, end rule) - not proved: that _mk_initial_tnew never raises on "
+    "sorted input with >= 2 samples and a bound on the alignment shift delt (both measured exactly by correspondence); "
+    "sr='auto' (sample-rate statistics), despiking and `base` are outside the model; the outlier-time test is decided "
+    "exactly in the model ((t-mean)^2 > 9 var), the code uses float mean/std: near ties are skipped; np.mean's division in "
+    "delt is exact in the model, rounded in the code (compared at 1e-9*dt when delt is not dyadic); rescale: the edge "
+    "partition is proved per branch (edges_partition_linear/_linear_tolerance/_log, edges_dispatch), the log branch's sqrt "
+    "is tied numerically; get_freq_oct: band relations are proved for whatever is returned (freq_oct_bands), the trimming "
+    "rules and the band count (floor/log2) are tied numerically and checked by the oracle, not proved; psd2time's "
+    "mean-square conservation (Parseval), psdmod = max of Welch slices and proc_psd_spec's NaN rule are oracle checks only; "
+    "area's remaining |s+1| < 1e-8 branch is proved to be within the relative amount |s+1|*ln(f2/f1) of the integral, not "
+    "equal to it (`area_segment_tolerance_band_inexact`), so area_is_integral_of_interpolant carries the slope hypothesis"
 )
 MANIFEST = {
     "level_text": "Proof (Lean 4, kernel-checked, standard axioms only) about executable models of the searchsorted-"
     "based nearest/previous-sample rules of fixtime (returned index minimises |told[i]-t| with ties to the earlier "
     "time; last index with told[i] <= t, 0 if none; strictly increasing data is mapped to itself for any tolerance "
-    "shift below the smallest gap), of resample's length pipeline (= ceil(n*p/q)), of rescale's cumulative-area "
-    "bookkeeping over any ordered field (np.interp of the cumulative sum is the integral of the piecewise-constant "
-    "PSD; every band's mean-square is the overlap integral; sums telescope; extendends rescales by covered width), of "
-    "area's segment formula (Mathlib integral_rpow: equals the integral of p1 (f/f1)^s for s = -1 and for |s+1| >= "
-    "1e-8, within |s+1| ln(f2/f1) relative inside the band; additivity; area = integral of the log-log interpolant) and of log-log interpolation at break points; resample's FIR taps vanish at non-zero multiples of p when upsampling. "
-    "Models are tied to /repo by exact correspondence on dyadic inputs (index rules, lengths, fixtime end to end) and "
-    "numeric correspondence (1e-9) for area/interp/rescale/resample. Partial: interpolation accuracy of the Lanczos "
-    "filter and fixtime's time-base heuristics are measured, not proved.",
+    "shift below the smallest gap), of fixtime's cleaning bookkeeping (outlier times found in the drop-out-filtered vector "
+    "are full-record positions and the kept set composes: alldrops_indices_are_full_record_positions) and time base "
+    "(_mk_initial_tnew is an exact arithmetic progression of round(span*sr)+1 points ending within half a step of the "
+    "last old time: tnew_uniform), of resample's whole pipeline (length = ceil(n*p/q); when q <= p and the window centre "
+    "is 1 output sample i*p' IS input sample i*q': upsample_keeps_samples_full; constants are reproduced for every "
+    "window: constants_reproduced; sample times t0 + j*dt*q/p), of rescale's cumulative-area bookkeeping over any ordered "
+    "field (np.interp of the cumulative sum is the integral of the piecewise-constant PSD; every band's mean-square is "
+    "the overlap integral; sums telescope; extendends rescales by covered width) and of its band edges (linear: shared "
+    "edges, centre = middle; within the 1e-12 tolerance: gap below 1e-12*|Df|; logarithmic: shared edges = geometric "
+    "means, end centres geometric means of their edges; extendends clips at the band EDGE), of area (Mathlib "
+    "integral_rpow per segment; area(spec) = interval integral of the whole log-log interpolant psd.interp over [f0, fn]: "
+    "area_is_integral_of_interpolant; additivity; tolerance band bounded), of log-log interpolation (piecewise power law; "
+    "exact at break points) and of get_freq_oct's bands (FU/FL = 2^(1/n) or 10^(3/(10n)), F = sqrt(FL*FU), contiguous). "
+    "Models are tied to /repo by exact correspondence on dyadic inputs (index rules, bookkeeping, time base, lengths, "
+    "linear band edges, fixtime end to end) and numeric correspondence (1e-9) for area/interp/rescale/edges/"
+    "get_freq_oct/resample. Partial: interpolation accuracy of the Lanczos filter, fixtime's sample-rate heuristics and "
+    "despiking, get_freq_oct's trimming arithmetic and psd2time's Parseval identity are measured, not proved.",
     "level_note": "Trusted: Lean kernel; propext, Classical.choice, Quot.sound; the Python harness; numpy/scipy "
-    "kernels as listed in trusted_base; numba variants are source text only.",
-    "technique": "Lean 4 proof (list induction for index rules and cumulative area, Mathlib interval integrals for "
-    "area) + exact/numeric differential correspondence with pyyeti.dsp / pyyeti.psd",
+    "kernels as listed in trusted_base; numba variants and rescale's nested edge code are source text only. Tied or "
+    "measured only (not proved): float round-off everywhere, storage dtypes, the Kaiser window values, the 3-sigma "
+    "statistics in floating point, _mk_initial_tnew's totality and shift bound, get_freq_oct's trimming, psd2time, psdmod.",
+    "technique": "Lean 4 proof (list induction for index rules, cumulative area, convolution and bookkeeping; Mathlib "
+    "interval integrals for area; rpow for octave bands) + exact/numeric differential correspondence with pyyeti.dsp / "
+    "pyyeti.psd + ast extraction of nested source text",
 }
 
 # ---------------------------------------------------------------------------------------
